@@ -15,7 +15,7 @@ ASSUMPTIONS = [
     "run truncated when every computation has completed the stated number of rounds",
 ]
 BOUNDS = {
-    "quick": "probe: pair (3 rounds, subset and return/post per round), chain-3 (2 rounds), triangle and star-3 (degree 3; 1 complete round plus the messages of the next) with a subset fixed per computation; DSA-tuto on a pair (3 rounds); all schedules and start orders",
+    "quick": "probe: pair (3 rounds, subset and return/post per round), chain-3 (2 rounds), triangle and star-3 (degree 3; 1 complete round plus the messages of the next) with a subset fixed per computation; star-3 until the hub has completed 2 rounds (leaves 1) with everybody addressing all neighbours; DSA-tuto on a pair (3 rounds); all schedules and start orders",
     "thorough": "probe: chain-3 per-round subsets, chain-3 with 3 rounds, triangle/star-3 with 2 rounds; DSA-tuto chain-3; Max-Sum pair (4 rounds)",
 }
 OUTSIDE = "more than 4 computations, more than 3 rounds, NCBB (needs the pseudo-tree specific messages)"
@@ -38,6 +38,10 @@ def jobs(tier):
          "free": ["a"]},
         {"name": "probe-star3-r1", "kind": "probe", "graph": "star3", "rounds": 1, "per_round": False, "via": "return",
          "free": ["a", "b"]},
+        # degree 3 over two full rounds, everybody talks to everybody: two leaves can be one round ahead of the hub at the
+        # same time (several early messages buffered for the next round)
+        {"name": "probe-star3-r2-all", "kind": "probe", "graph": "star3", "rounds": 1, "rounds_for": {"a": 2}, "per_round": False,
+         "via": "return", "free": []},
         {"name": "dsatuto-pair-r3", "kind": "algo", "algo": "dsatuto", "spec": spec("pair", "min"), "rounds": 3},
     ]
     if tier == "thorough":
@@ -125,14 +129,15 @@ def run_probe(eng, p):
         comps[name] = bench.add(_make_probe(eng, name, neigh, p, log))
     R = p["rounds"]
     try:
-        status = bench.run(max_steps=400, stop=lambda: all(c.current_cycle >= R for c in comps.values()))
+        RF = p.get("rounds_for", {})
+        status = bench.run(max_steps=400, stop=lambda: all(c.current_cycle >= RF.get(n, R) for n, c in comps.items()))
     except Exception as e:
         import traceback
         eng.notes["outcome"] = {"exc": str(e)}
         eng.fail("exception %s: %s" % (type(e).__name__, e), detail=traceback.format_exc(limit=-4))
         return
     eng.notes["outcome"] = {"status": status, "cycles": {k: [(c, sorted(m)) for c, m in v] for k, v in log["cycles"].items()}}
-    eng.prove(status == "stopped", "computations did not all complete %d rounds (stuck: %s)" % (R, status),
+    eng.prove(status == "stopped", "computations did not all complete their %d round(s) (hub: %s) (stuck: %s)" % (R, p.get("rounds_for"), status),
               detail=str(eng.notes["outcome"]))
     ok, why = True, None
     for name, calls in log["cycles"].items():
